@@ -44,8 +44,8 @@ REGISTRY: dict[str, dict] = {
              "7th offset and all frame ends in quick, all offsets in thorough. Non-trivial = every stream.",
     ),
     "C13": dict(
-        modules=["C13", "Tables", "C02Full"],
-        theorems=[T + "C13_header_fidelity_bytes", T + "C13_header_fidelity", T + "C13_version", T + "C13_type_pairs_agree", T + "C13_writer_rejects",
+        modules=["C13", "Tables", "C02Full", "TranslatedFuncs"],
+        theorems=[T + "Translated.validate_type_compatibility_eq", T + "Translated.stream_types_flat_eq", T + "Translated.lookup_preset_post_init_eq", T + "Translated.stream_parameters_version_eq", T + "C13_header_fidelity_bytes", T + "C13_header_fidelity", T + "C13_version", T + "C13_type_pairs_agree", T + "C13_writer_rejects",
                   T + "C13_reader_rejects_small_names", T + "C13_strict_gates", T + "C13_logical_type_irrelevant",
                   T + "C13_logical_type_irrelevant_state", T + "C13_reader_rejects_oversized",
                   T + "C13_reader_rejects_new_version", T + "C13_infer_flow_table"],
